@@ -124,6 +124,30 @@ def check(run, prefix="O7"):
     o.check(set(x.rsplit("::", 1)[-1] for x in creators) <= {"mark_notar_fallback", "mark_skipped"}, "ParentReadyTracker::slot_state|callers",
             "per-slot state is created only in mark_notar_fallback / mark_skipped (behind the root guard)", "", {"callers": [fshort(x) for x in creators]})
 
+    # ------------------------------------------------------------------ O7.7 propagate once
+    o = run.ob(P + ".7", "a block / skip is propagated only when it was newly marked (each pair is recorded once)",
+               "re-propagating an already marked block or slot inserts a (slot, parent) pair twice: the duplicate assertion in add_to_ready panics under the pool lock (or the pair is announced again)", floor=4)
+    for fn, marker in (("mark_notar_fallback", PRS + "::mark_notar_fallback"), ("mark_skipped", PRS + "::mark_skip")):
+        b = prog.body(PRT + "::" + fn)
+        if b is None:
+            continue
+        for c, key in K.ordinal_keys(b.calls_to(PRS + "::add_to_ready"), lambda c: "ParentReadyTracker::%s|add_to_ready" % fn):
+            g = [a for a in G.guard_atoms(b, c.bb, prog) if a[0] == "bool" and a[2] is True and a[1][0][0] == "call" and a[1][0][1] == marker]
+            o.check(bool(g), key + "|newly-marked", "only after %s(..) returned true (newly marked)" % marker.rsplit("::", 1)[-1], c.span, {"guards": K.show_atoms(prog, b, c.bb)[:5]})
+    for fn, fld in (("mark_skip", "skip"), ("mark_notar_fallback", "notar_fallbacks")):
+        b = prog.body(PRS + "::" + fn)
+        if b is None:
+            o.missing("ParentReadyState::" + fn)
+            continue
+        import engine.paths as P_
+        rows = P_.decision_table(b, prog)
+        outs = set()
+        for atoms, ret, blocks in rows:
+            wrote = any(bb in blocks for (bb, _sp, _rv) in K.writes_of_field(b, "ParentReadyState", fld)) or any(bb in blocks for (bb, _sp) in K.mutborrows_of_field(b, "ParentReadyState", fld) if any(c.bb in blocks and c.name.endswith("::push") for c in b.calls()))
+            if ret is not None and ret[0] == "const":
+                outs.add((bool(ret[2]), bool(wrote)))
+        o.check(outs == {(True, True), (False, False)}, "ParentReadyState::%s|returns-newly" % fn, "%s returns true exactly on the path that records the mark" % fn, b.span, {"table(ret,wrote)": sorted(outs)})
+
     # ------------------------------------------------------------------ O7.4 is_ready writers
     o = run.ob(P + ".4", "is_ready is written only by add_to_ready / wait_for_parent_ready / constructors; the registered waiter is sent the first parent",
                "updating is_ready elsewhere skips the wake-up of a registered waiter or the duplicate assertion", floor=3)
